@@ -75,6 +75,15 @@ claim("C07",
       "unreachable use as disable_field is established by the oracle only.",
       "Lean 4 proof (state-machine invariants by induction over operation sequences) + binding-map-vs-create oracle")
 
+claim("C02",
+      "PARTIAL proof. Lean 4 theorems: every allocated identifier is an IdentifierName, never a reserved word / relied-upon global, never a preserved A–Z name, and distinct "
+      "counters give distinct names (tables VAR_NAME_* and the reserved list re-extracted from the source each run); every string literal decodes (C12); every value "
+      "expression, hoisted statement and if-selector statement derives its intended tree in the ECMAScript grammar (gen_derives, if_selector_derives). Models tied by "
+      "exhaustive identifier correspondence and byte-equality streams. Oracle: V8 parses (sloppy+strict) every artefact of generated, hostile-named, mutated and large templates.",
+      "Trusted: Lean kernel; axioms ⊆ {propext, Classical.choice, Quot.sound}; Spec/JsLex, JsGrammar, JsString; extractors; V8. The statement skeleton of the tag-level "
+      "generator and the final step derivable⇒parsable are covered by the oracle only.",
+      "Lean 4 proof (identifiers, literals, expressions) + V8 syntax oracle over all artefacts")
+
 ALL = ["C%02d" % i for i in range(1, 21)]
 
 def main():
